@@ -185,6 +185,11 @@ partial def parseStmts (h : IO.FS.Stream) (hist : Hist) (depth : Nat) : IO (Opti
       match parseOp o with
       | some o => out := out.push (.ist (.declCmp o x.toNat! y.toNat!))
       | none => ok := false
+    | "RN" =>      -- RN <x> <expr>         x.resetNode(); x = e;
+      let (x, k) := k.next
+      match parseExpr k with
+      | some (e, _) => out := out.push (.ist (.resetAssign x.toNat! e))
+      | none => ok := false
     | "RG" =>      -- RG <expr>             auto t = reg(e);
       match parseExpr k with
       | some (e, _) => out := out.push (.ist (.reg e))
